@@ -123,7 +123,8 @@ def r02_1(ctx):
             ctx.ok("second pass for an item released by notify_finish|%s" % b.name, site=site)
             continue
         # (ii) false edge of add_dependency on the same depender
-        ad_false = bool_call_edges(b, lib, ROLE["add_dependency"], False)
+        # strict: `let wait = match mode { Verify => false, _ => add_dependency(..) }` takes the same edge without having asked
+        ad_false = bool_call_edges(b, lib, ROLE["add_dependency"], False, strict=True)
         same_dep = False
         for abb, at in calls_to(b, ROLE["add_dependency"]):
             dep_lv = C.trace(b, at["args"][1])
@@ -432,6 +433,39 @@ def r03_3(ctx):
             ctx.ok("every received result is counted before dispatch", site=ctx.site(b, bb))
         else:
             ctx.violation(["dispatch-uncounted"], "a received result can be dispatched without being counted as done", site=ctx.site(b, bb))
+
+
+@rule("C03", "R03.10", floor=1)
+def r03_10(ctx):
+    """a received result is counted done ONCE on every path that goes on receiving: after the first increment of the done counter for a
+    result (add_done / add_done_quiet, directly or through a helper), a second increment lies only on paths that leave the loop with an
+    error — a `continue` after the extra increment (best-effort handling of a failed file) makes done overtake total: is_done() is
+    never true again and the coordinator polls forever"""
+    lib = ctx.lib
+    b = body(ctx, "txtpp_run_internal")
+    if not b:
+        return
+    heads = [bb for bb, t in b.calls() if C.callee_name(t) == TRY_RECV]
+    INC = tuple(n for n in lib.bodies if n.startswith(ROLE["progress_add_done"]) and "{closure" not in n)   # add_done, add_done_quiet
+    incs = [(bb, t) for bb, t, how in calls_reaching(lib, b, INC)]
+    if not heads or not incs:
+        ctx.anchor_missing("try_recv loop / done-counter increments in the coordinator")
+        return
+    isd = bool_call_edges(b, lib, ROLE["progress_is_done"], True)
+    for bb, t in incs:
+        # other increments reachable after this one without passing the loop head
+        later = C.after_edges(b, out_edges(b, [bb]), cut=out_edges(b, heads))
+        for bb2, t2 in incs:
+            if bb2 == bb or bb2 not in later:
+                continue
+            # .. and from that second increment the loop goes on (head or the is_done exit reachable)
+            go_on = C.after_edges(b, out_edges(b, [bb2]))
+            if any(h in go_on for h in heads):
+                ctx.violation([b.name, "counted-twice"], "a received result can be counted done twice on a path that keeps receiving "
+                              "(done_count overtakes total_count: the run never ends)", site=ctx.site(b, bb2))
+                break
+        else:
+            ctx.ok("no second increment for the same result on a path that keeps receiving", site=ctx.site(b, bb))
 
 
 @rule("C03", "R03.4", floor=2)
@@ -1039,6 +1073,41 @@ def r02_11(ctx):
                 ctx.violation([ed.name, "read-path"], "the include arm does not resolve the directive's first argument unmodified against "
                               "IOCtx.work_dir: %s" % [repr(x) for x in lv][:3], site=ctx.site(ed, bb))
     rules_dir.r10_5(ctx)
+
+
+@rule("C02", "R02.12", floor=2)
+def r02_12(ctx):
+    """whether a file's first pass collects dependencies depends on the first-pass flag alone: in Pp::run the PpMode::FirstPassExecute value
+    is built for every Mode, and PpMode::Execute is not built on the first-pass edge (a Mode-dependent shortcut — "only Build needs to
+    wait" — lets needed-build / verify read dependencies that were never scheduled)"""
+    lib = ctx.lib
+    pr = body(ctx, "pp_run")
+    if not pr:
+        return
+    mo = modes(ctx)
+    fp = [bb for bb, st in aggregates(pr, ADT["PpMode"], "FirstPassExecute")]
+    ex = [bb for bb, st in aggregates(pr, ADT["PpMode"], "Execute")]
+    if not fp or not ex:
+        ctx.anchor_missing("PpMode::FirstPassExecute / PpMode::Execute selection in Pp::run")
+        return
+    p_fp = pr.param_index_by_name("is_first_pass")
+    is_flag = lambda leaf: leaf is not None and leaf.kind == "param" and leaf.data == p_fp
+    t_e = C.guard_edges(pr, lib, lambda c, v, leaf: c.kind == "bool" and is_flag(leaf) and v is True)
+    f_e = C.guard_edges(pr, lib, lambda c, v, leaf: c.kind == "bool" and is_flag(leaf) and v is False)
+    need = {"Build", "InMemoryBuild", "Verify"}
+    for bb in fp:
+        m = set(mo.local_modes(pr, bb))
+        if need <= m and t_e and C.guarded(pr, bb, t_e):
+            ctx.ok("first pass collects dependencies in every mode", site=ctx.site(pr, bb))
+        else:
+            ctx.violation([pr.name, "first-pass-by-mode"], "the dependency-collecting first pass is only selected for modes %s (all of %s expected) "
+                          "or not by the first-pass flag" % (sorted(m), sorted(need)), site=ctx.site(pr, bb))
+    for bb in ex:
+        if f_e and C.guarded(pr, bb, f_e):
+            ctx.ok("PpMode::Execute only when not the first pass", site=ctx.site(pr, bb))
+        else:
+            ctx.violation([pr.name, "execute-on-first-pass"], "PpMode::Execute can be selected although this is the file's first pass "
+                          "(its dependencies would never be reported)", site=ctx.site(pr, bb))
 
 
 @rule("C03", "R03.9", floor=1)
